@@ -266,3 +266,54 @@ func VerifC09AV1Owned() {
 	}
 	verifCover("C09.av1own.end")
 }
+
+// verifC09OwnedSeq feeds the packets to receiver a, overwriting each input as
+// soon as its call has returned, and fresh copies to the twin b: every result
+// must agree, however many packets the carried state spans.
+func verifC09OwnedSeq(tag string, a, b func([]byte) ([]byte, error), ins [][]byte) {
+	for i, in := range ins {
+		cp := append([]byte{}, in...)
+		oa, ea := a(in)
+		ob, eb := b(cp)
+		verifAssert(tag+".same-errorness", (ea == nil) == (eb == nil))
+		verifAssert(tag+".same-output", verifEqBytes(oa, ob))
+		if i == len(ins)-1 && ea == nil && len(oa) > 0 {
+			verifCover(tag + ".output")
+		}
+		verifHavoc("overwrite", in)
+	}
+}
+
+// three-packet fragment runs: the state kept after the middle packet is owned too
+func VerifC09H264OwnedSeq() {
+	hdr := verifU8("indicator")&0x60 | 28
+	typ := verifU8("type") & 0x1F
+	mid := verifU8("midflags") & 0xC0 // a middle fragment, or (lossy streams) another start or an end
+	ins := [][]byte{
+		append([]byte{hdr, 0x80 | typ}, verifBytes("frag1", verifCase("f1", 1, 2))...),
+		append([]byte{hdr, mid | typ}, verifBytes("frag2", verifCase("f2", 1, 2))...),
+		append([]byte{hdr, 0x40 | typ}, verifBytes("frag3", 1)...),
+	}
+	avc := verifBool("avc")
+	a, b := &H264Packet{IsAVC: avc}, &H264Packet{IsAVC: avc}
+	verifC09OwnedSeq("C09.h264seq", a.Unmarshal, b.Unmarshal, ins)
+	verifCover("C09.h264seq.end")
+}
+
+func VerifC09AV1OwnedSeq() {
+	// packet 1: W=1, Y=1; packet 2: Z=1, Y symbolic, one element or two (the first ends
+	// the pending OBU, the second starts the next); packet 3: Z symbolic, W=1
+	p1 := append([]byte{0x50}, verifBytes("frag1", verifCase("f1", 1, 2))...)
+	p1[1] &= 0x7D
+	var p2 []byte
+	y2 := verifU8("y2") & 0x40
+	if verifCase("elements2", 1, 2) == 1 {
+		p2 = append([]byte{0x90 | y2}, verifBytes("frag2", 1)...)
+	} else {
+		p2 = []byte{0xA0 | y2, 1, verifU8("frag2.tail"), verifU8("frag2.head") & 0x7D, verifU8("frag2.body")}
+	}
+	p3 := []byte{verifU8("z3")&0x80 | 0x10, verifU8("frag3")}
+	a, b := &AV1Depacketizer{}, &AV1Depacketizer{}
+	verifC09OwnedSeq("C09.av1seq", a.Unmarshal, b.Unmarshal, [][]byte{p1, p2, p3})
+	verifCover("C09.av1seq.end")
+}
